@@ -93,6 +93,32 @@ def _sym_value(s, subs):
     return v60.real
 
 
+def double_eval(expr, names, values):
+    """second opinion: the SymPy expression evaluated in plain double precision (math module), operation by operation.
+    A faithful translation reproduces CasADi's double result even where the expression is ill-conditioned (atanh of
+    tanh(12), cos of 7e10, acos near 1), while a wrong translation differs in both arithmetics."""
+    import math as _m
+    try:
+        with time_limit(4.0):
+            syms = [sp.Symbol(n) for n in names]
+            mods = [{"sign": lambda x: (x > 0) - (x < 0), "Abs": abs, "erf": _m.erf, "floor": _m.floor, "ceiling": _m.ceil,
+                     "Mod": lambda a, b: a % b, "Min": min, "Max": max}, "math"]
+            f = sp.lambdify(syms, expr, modules=mods)
+            v = f(*[float(x) for x in values])
+        if isinstance(v, bool):
+            return 1.0 if v else 0.0
+        if v is sp.true:
+            return 1.0
+        if v is sp.false:
+            return 0.0
+        v = complex(v)
+        if v.imag != 0:
+            return None
+        return v.real
+    except Exception:
+        return None
+
+
 class IllConditioned(Exception):
     pass
 
@@ -194,6 +220,9 @@ def c2s_agree(cts, e, V, names, pts):
             continue
         n_ok += 1
         if not close(val, ref):
+            vd = double_eval(s, names, pt)
+            if vd is not None and close(vd, ref):
+                continue  # agrees operation-by-operation in double precision: only the conditioning differs
             pert = [float(F(*[v * (1 + k) for v in pt])) for k in (1e-13, -1e-13)]
             if any(not close(pv, ref) for pv in pert):
                 continue  # ill-conditioned at this point in double precision (e.g. fmod by a tiny divisor)
@@ -259,6 +288,8 @@ def discontinuity_margin(e, V, pt):
             margins.append(ca.fabs(q - ca.floor(q) - 0.5))
         elif op == ca.OP_SIGN:
             margins.append(ca.fabs(d[0]))
+        elif op == ca.OP_ATAN2:  # branch cut on the negative real axis: y = +-0 with x < 0 (signed zeros decide the sign of pi)
+            margins.append(ca.if_else(d[1] < 0, ca.fabs(d[0]) / ca.fmax(1e-300, ca.fabs(d[1])), 1.0))
         elif op in (ca.OP_LT, ca.OP_LE):
             margins.append(ca.fabs(d[0] - d[1]) / ca.fmax(1, ca.fabs(d[0])))
         elif op in (ca.OP_EQ, ca.OP_NE):
@@ -478,6 +509,9 @@ def s2c_agree(stc, e, names, pts, f_dict, repl, cse=False, symbols=None):
         val = float(F(*[subs[sp.Symbol(n)] for n in free])) if free else float(ca.DM(res))
         n_ok += 1
         if not close(val, ref):
+            rd = double_eval(src, free, [subs[sp.Symbol(n)] for n in free])
+            if rd is not None and close(val, rd):
+                continue  # agrees with the source evaluated in double precision
             if free and any(not close(float(F(*[subs[sp.Symbol(n)] * (1 + k) for n in free])), val) for k in (1e-13, -1e-13)):
                 continue  # ill-conditioned in double precision at this point (e.g. cos of 1e7)
             return "bad", {"point": {n: subs[sp.Symbol(n)] for n in free}, "sympy_value": ref, "casadi_value": val}, syms
